@@ -73,6 +73,7 @@ def run(ctx):
     _parse_model(ctx)
     _parse_pure(ctx)
     _emit_model(ctx)
+    _wire_models(ctx)
     _registry_names(ctx)
     _codec(ctx)
     _text_stable(ctx)
@@ -101,6 +102,21 @@ def _parse_model(ctx):
               "every decoded value added under its parsed name, in order",
               "comma-separated FREEBUSY values each decoded",
               "multiple=True returns all top-level components, else the only one"))
+
+
+def _wire_models(ctx):
+    """The text between the tree and the bytes (E9 string model, shared with C05/C06/C08/C09):
+    parameters and content lines written by the serialiser are read back unchanged, physical
+    lines are split and unfolded exactly where the text says."""
+    from .. import strmodel
+    m = ctx.model
+    strmodel.report(ctx, "C01/PARAM-WIRE", strmodel.explore_params_extended,
+                    ["line round trip", "round trip", "history"],
+                    m.own_method("parser.Parameters.from_ical").loc(), 300,
+                    select=lambda law: law in ("line round trip", "round trip", "history"))
+    strmodel.report(ctx, "C01/PHYS-MODEL", strmodel.explore_physical, ["reader", "unfold", "invariance"],
+                    m.own_method("parser.Contentlines.from_ical").loc(), 100,
+                    select=lambda law: law in ("reader", "unfold", "invariance"))
 
 
 def _parse_pure(ctx):
